@@ -19,6 +19,7 @@
 #include <boost/gil/utilities.hpp>
 
 #include <algorithm>
+#include <cstdint>
 #include <functional>
 #include <type_traits>
 
@@ -164,7 +165,12 @@ struct default_color_converter_impl<rgb_t, cmyk_t>
         src_t const g = get_color(src, green_t());
         src_t const b = get_color(src, blue_t());
 
-        using uint_t = typename channel_type<cmyk8_pixel_t>::type;
+        // Intermediate channel type: 8 bits are enough for 8-bit sources; deeper sources
+        // (16-bit, 32-bit, float) must not be quantised to 256 levels before black extraction.
+        using uint_t = typename std::conditional
+            <
+                (sizeof(src_t) > 1), std::uint16_t, typename channel_type<cmyk8_pixel_t>::type
+            >::type;
         uint_t c = channel_invert(channel_convert<uint_t>(r)); // c = 1 - r
         uint_t m = channel_invert(channel_convert<uint_t>(g)); // m = 1 - g
         uint_t y = channel_invert(channel_convert<uint_t>(b)); // y = 1 - b
